@@ -315,6 +315,8 @@ impl<L> ClientBuilder<L> {
 		let (client_dropped_tx, client_dropped_rx) = oneshot::channel();
 		let (send_receive_task_sync_tx, send_receive_task_sync_rx) = mpsc::channel(1);
 		let manager = ThreadSafeRequestManager::new();
+		#[cfg(jsonrpsee_verif)]
+		let verif_manager = Arc::downgrade(&manager.0);
 
 		let (ping_interval, inactivity_stream, inactivity_check) = match self.ping_config {
 			None => (IntervalStream::pending(), IntervalStream::pending(), InactivityCheck::Disabled),
@@ -367,6 +369,8 @@ impl<L> ClientBuilder<L> {
 			error: ErrorFromBack::new(to_back, disconnect_reason),
 			id_manager: RequestIdManager::new(self.id_kind),
 			on_exit: Some(client_dropped_tx),
+			#[cfg(jsonrpsee_verif)]
+			verif_manager,
 		}
 	}
 
@@ -389,6 +393,8 @@ impl<L> ClientBuilder<L> {
 		let (client_dropped_tx, client_dropped_rx) = oneshot::channel();
 		let (send_receive_task_sync_tx, send_receive_task_sync_rx) = mpsc::channel(1);
 		let manager = ThreadSafeRequestManager::new();
+		#[cfg(jsonrpsee_verif)]
+		let verif_manager = Arc::downgrade(&manager.0);
 
 		let ping_interval = PendingIntervalStream::pending();
 		let inactivity_stream = PendingIntervalStream::pending();
@@ -426,6 +432,8 @@ impl<L> ClientBuilder<L> {
 			error: ErrorFromBack::new(to_back, disconnect_reason),
 			id_manager: RequestIdManager::new(self.id_kind),
 			on_exit: Some(client_dropped_tx),
+			#[cfg(jsonrpsee_verif)]
+			verif_manager,
 		}
 	}
 }
@@ -443,6 +451,9 @@ pub struct Client<L = RpcLogger<RpcService>> {
 	/// When the client is dropped a message is sent to the background thread.
 	on_exit: Option<oneshot::Sender<()>>,
 	service: L,
+	/// Verification hook: weak handle to the shared request manager (does not keep it alive).
+	#[cfg(jsonrpsee_verif)]
+	verif_manager: std::sync::Weak<std::sync::Mutex<RequestManager>>,
 }
 
 impl Client<Identity> {
@@ -482,6 +493,17 @@ impl<L> Client<L> {
 	/// Returns configured request timeout.
 	pub fn request_timeout(&self) -> Duration {
 		self.request_timeout
+	}
+
+	/// Verification hook: number of entries in the four tables of the request manager
+	/// (requests, subscriptions, batches, notification handlers); all zero once the
+	/// background tasks have dropped the manager.
+	#[cfg(jsonrpsee_verif)]
+	pub fn verif_table_sizes(&self) -> [usize; 4] {
+		match self.verif_manager.upgrade() {
+			Some(m) => m.lock().expect(NOT_POISONED).verif_sizes(),
+			None => [0; 4],
+		}
 	}
 }
 
